@@ -86,7 +86,11 @@ fn write_out(mb: &Metablock, how: &str) -> Result<Vec<u8>, String> {
 
 fn roundtrip_case(acc: &mut Acc, desc: &str, meta: &MetadataWrapper, signers: &[&Key], how: &str, outputs: &[&str]) {
     let names: Vec<&str> = signers.iter().map(|k| k.name).collect();
-    let witness = |out: &str| json!({"kind": "roundtrip", "value": desc, "value_json": serde_json::to_value(meta).unwrap_or(Value::Null), "signers": names, "construction": how, "output": out});
+    let witness = |out: &str| {
+        let vj = serde_json::to_value(meta).unwrap_or(Value::Null);
+        let vj = if vj.to_string().len() > 20_000 { json!({"too_large_to_embed": desc}) } else { vj };
+        json!({"kind": "roundtrip", "value": desc, "value_json": vj, "signers": names, "construction": how, "output": out})
+    };
     let mb = match construct(meta, signers, how) {
         Ok(mb) => mb,
         Err(e) => {
@@ -105,7 +109,22 @@ fn roundtrip_case(acc: &mut Acc, desc: &str, meta: &MetadataWrapper, signers: &[
                 continue;
             }
         };
-        let parsed: Result<Metablock, _> = serde_json::from_slice(&bytes);
+        // read back through serde_json and through the library's own readers (slice and stream)
+        let parsed: Result<Metablock, String> = serde_json::from_slice::<Metablock>(&bytes).map_err(|e| e.to_string());
+        for (reader, r) in [
+            ("Json::from_slice", guard(|| Json::from_slice::<Metablock>(&bytes).map_err(|e| format!("{e:?}")))),
+            ("Json::from_reader", guard(|| Json::from_reader::<_, Metablock>(&bytes[..]).map_err(|e| format!("{e:?}")))),
+            ("JsonPretty::from_reader", guard(|| JsonPretty::from_reader::<_, Metablock>(&bytes[..]).map_err(|e| format!("{e:?}")))),
+        ] {
+            let same = match (&r, &parsed) {
+                (Guard::Done(Ok(a)), Ok(b)) => a == b,
+                (Guard::Done(Err(_)), Err(_)) => true,
+                _ => false,
+            };
+            if !same {
+                acc.violation(&format!("written-block-not-read-back:{reader}"), &format!("the JSON written for a signed block ({out}, {} bytes) is not read back by {reader} the way serde_json reads it", bytes.len()), || witness(out));
+            }
+        }
         let parsed = match parsed {
             Ok(p) => p,
             Err(e) => {
@@ -442,6 +461,27 @@ pub fn run(tier: Tier) -> i32 {
         }
         let _ = std::fs::remove_dir_all(&dir);
     }
+    // (6) blocks whose JSON form is larger than typical buffer / limit sizes (64 KiB, 1 MiB, 4 MiB)
+    for size in if tier.thorough() { vec![70_000usize, 1_300_000, 5_000_000] } else { vec![70_000usize, 1_300_000] } {
+        let mut l = c11::link_with("name", "big");
+        if let MetadataWrapper::Link(ref mut lm) = l {
+            let big: String = (0..size).map(|i| ['a', 'b', '\n', 'c'][i % 4]).collect();
+            lm.byproducts = lm.byproducts.clone().set_stdout(big);
+        }
+        acc.nontrivial += 1;
+        roundtrip_case(&mut acc, &format!("link with {size} characters of captured output"), &l, &[ed], "Metablock::new", &OUTPUTS);
+    }
+    {
+        // many small members instead of one long string
+        let mut l = c11::link_with("name", "many");
+        if let MetadataWrapper::Link(ref mut lm) = l {
+            for i in 0..if tier.thorough() { 9000 } else { 3000 } {
+                lm.products.insert(world::vpath(&format!("out/file-{i:05}.o")), world::desc((i % 250) as u8));
+            }
+        }
+        acc.nontrivial += 1;
+        roundtrip_case(&mut acc, "link with thousands of products", &l, &[ed], "builder", &OUTPUTS);
+    }
     let ecdsa_info = ecdsa_length_classes(&mut acc, &four[0].1);
     c.extra.insert("ecdsa_signature_length_classes".into(), Value::Object(ecdsa_info));
     let rsa_info = rsa_leading_zero_class(&mut acc, &four[0].1);
@@ -451,9 +491,10 @@ pub fn run(tier: Tier) -> i32 {
         let b = MetablockBuilder::from_metadata(four[0].1.clone().into_trait()).sign(&[&keys::get("ed1").private]).unwrap().sign(&[&keys::get("ed2").private]).unwrap().build();
         c.extra.insert("observation_builder_sign_twice_keeps_signatures".into(), json!(b.signatures.len()));
     }
+    crate::envprobe::judge(&mut acc, "C09:", &mut c.extra);
     c.acc = acc;
     c.rule = format!(
-        "(1) {} documents (every string field of link and layout x wide strings <= {} over 17 characters incl. controls/non-BMP and critical strings <= 2) signed with Ed25519 via Metablock::new, the builder, the plain constructors and (links) LinkMetadataBuilder::signed, written 4 (2) ways, read back, verified; (2) every {}th document with each of the 5 other key kinds; (3) all 40 ordered signer sequences of length 1..3 over 4 key types x 6 constructions x 4 outputs x 4 documents; (5) in_toto_run on a two-file tree x 6 key kinds x 3 commands; (4) per key kind: every other key of the type, every scheme re-declaration, every single bit of the signature. distinct_nontrivial = documents x signer settings + negative cases",
+        "(1) {} documents (every string field of link and layout x wide strings <= {} over 17 characters incl. controls/non-BMP and critical strings <= 2) signed with Ed25519 via Metablock::new, the builder, the plain constructors and (links) LinkMetadataBuilder::signed, written 4 (2) ways, read back, verified; (2) every {}th document with each of the 5 other key kinds; (3) all 40 ordered signer sequences of length 1..3 over 4 key types x 6 constructions x 4 outputs x 4 documents; (6) links with 70 KB / 1.3 MB (5 MB) of captured output and with 3000 (9000) products; every written block is read back by serde_json, Json::from_slice, Json::from_reader and JsonPretty::from_reader alike; (5) in_toto_run on a two-file tree x 6 key kinds x 3 commands; (4) per key kind: every other key of the type, every scheme re-declaration, every single bit of the signature. distinct_nontrivial = documents x signer settings + negative cases",
         docs.len(),
         if tier.thorough() { 2 } else { 1 },
         if tier.thorough() { 3 } else { 11 }
